@@ -6,6 +6,16 @@
                                hookPanic, panic string/error/runtime/struct/ErrAbortHandler)
                              ret = `-` (no return value) | `N` (renders nothing) | `W<code>:<len>` |
                                    `B<len>` (a returned body without a status: implicit 200)
+                             `<ret>/<sig>`: the same return effect delivered by the Go signature <sig> = <params><results>,
+                               params  c (Context) | 0 () | w (http.ResponseWriter, *http.Request) | q (Context, *http.Request)
+                                       | r (*http.Request)
+                               results - | s | b | e | is | ib | ie | se | be   (string, []byte, error, int)
+                             returning the values that make the return-value table (C14) produce <ret>: `N` = "" / nil /
+                             nil error; `B<len>` = the body, nil error; `W<code>:<len>` = (code, body) — for `ie` a nil error
+                             when len = 0, else an error whose text is the body; for e / se / be only `W500:<len>0>`, a non-nil
+                             error whose text is the body.  Neither the parameter list (how the framework invokes the
+                             function) nor the carrier types change the effect: the model reads <ret> and only checks
+                             that <sig> can deliver it (`sigOk`).
           H r                flamego.Recovery()
           H u                a handler with an unmapped parameter type
           (nmw + ngrp + nrt lines in chain order, then one more for the action if action = 1)
@@ -52,10 +62,35 @@ def parseRet (s : String) : Option Ret :=
       | _ => none
     | _ => none
 
+/-- can a function with result list `res` deliver the effect `ret` through the return-value table?
+    (the documented rows: a lone string / []byte / error; (int, string|[]byte|error): the int is the status;
+    (string|[]byte, error): the error if non-nil, else the body; a non-nil error is answered 500 + its text) -/
+def resOk (ret : Ret) (res : String) : Bool :=
+  match ret with
+  | .none => res == "-"
+  | .nothing => ["s", "b", "e", "se", "be"].contains res
+  | .body _ => ["s", "b", "se", "be"].contains res
+  | .writes code len =>
+    ["is", "ib", "ie"].contains res || (["e", "se", "be"].contains res && code == 500 && len > 0)
+
+def sigOk (ret : Ret) (sig : String) : Bool :=
+  match sig.toList with
+  | p :: res => "c0wqr".toList.contains p && !res.isEmpty && resOk ret (String.ofList res)
+  | [] => false
+
+/-- `<ret>` or `<ret>/<sig>` -/
+def parseRetSig (s : String) : Option Ret :=
+  match s.splitOn "/" with
+  | [r] => parseRet r
+  | [r, sig] => do
+    let ret ← parseRet r
+    if sigOk ret sig then some ret else none
+  | _ => none
+
 def parseH : List String → Option Kind
   | ["H", "r"] => some .recovery
   | ["H", "u"] => some .unresolvable
-  | ["H", "p", a, r] => do some (.plain { acts := (← parseActs a), ret := (← parseRet r) })
+  | ["H", "p", a, r] => do some (.plain { acts := (← parseActs a), ret := (← parseRetSig r) })
   | _ => none
 
 def isRecovery (c : Cfg) (i : Nat) : Bool := c.slot i == some Kind.recovery
